@@ -196,7 +196,7 @@ func evmCases(c *ctx, only string) {
 		}
 		cj := EvmCase{ID: id, Shape: sh, Evm: true}
 		if what != "panic" {
-			c.cw.Add(fmt.Sprintf("CE %d [1] [3;232] %s %d %d %d %s", id, evmTrees[sh], obs.ETXs, obs.DelHashes, obs.DelMap, hlib.CoqBool(obs.LockupInDB == obs.LockupBefore)), cj)
+			c.addOld(fmt.Sprintf("CE %d [1] [3;232] %s %d %d %d %s", id, evmTrees[sh], obs.ETXs, obs.DelHashes, obs.DelMap, hlib.CoqBool(obs.LockupInDB == obs.LockupBefore)), cj)
 			c.rep.TracesValidated++
 		}
 		c.rep.Note(fmt.Sprintf("evm %s: err=%d etxs=%d delHashes=%d delMap=%d lockup before=%s afterBlockWrite=%s %s", sh, obs.Err, obs.ETXs, obs.DelHashes, obs.DelMap, obs.LockupBefore, obs.LockupInDB, what))
@@ -329,7 +329,7 @@ func createCases(c *ctx, only string) {
 		}
 		trace := obs.Exists || obs.Slot != "0" || obs.CallerBal != "1000"
 		// Coq case: the failure class and whether the frame's effects are still there
-		c.cw.Add(fmt.Sprintf("CO %d %d %s", id, obs.Err, hlib.CoqBool(trace)), cj)
+		c.addOld(fmt.Sprintf("CO %d %d %s", id, obs.Err, hlib.CoqBool(trace)), cj)
 		c.rep.TracesValidated++
 		if obs.Err != 0 && trace {
 			c.rep.Fail("create-failure-not-reverted/"+sh, fmt.Sprintf("creation failed (class %d) but its effects stay: account exists=%v nonce=%d balance=%s slot1=%s, creator balance %s (was 1000)", obs.Err, obs.Exists, obs.Nonce, obs.Balance, obs.Slot, obs.CallerBal), cj)
